@@ -31,6 +31,26 @@ CLAIMS = {
          "§6 C10", "Lean 4 proof + differential correspondence"),
  "C12": ("Lean theorems: closed integer form of compute_offer_amount, never above the documented closed form, below it by at most the stated rounding, commission formula. "
          "Correspondence: compute_offer_amount family around the feasibility frontier.", "§6 C12", "Lean 4 proof + differential correspondence"),
+ "C02": ("Lean theorems over the world model: effect of a successful swap through both entry points (offered asset is a pair asset, is the asset delivered, in the declared amount; "
+         "ask reserve falls by exactly the reported return, receiver credited exactly that; nothing else moves), rejection of hooks naming another asset or amount (defect D2, repaired), reported amounts = pricing function. "
+         "Correspondence: world families swap/mixed with the full message-shape cross product; the oracle checks the settlement equations on the implementation's own ledger.",
+         "§6 C02, §7 D2", "Lean 4 proof (transaction effect on a world model) + differential correspondence on cw-multi-test"),
+ "C11": ("Lean theorems: an accepted route with minimum_receive = m ends with the recipient's balance of the final asset at least m above its value at router entry, for both entry points; "
+         "failure leaves the world unchanged; empty routes rejected. Correspondence: world families route/mixed.",
+         "§6 C11", "Lean 4 proof (transaction post-condition) + differential correspondence on cw-multi-test"),
+ "C14": ("Lean theorems: one per guarded entry point (factory messages only from the owner, ownership follows updates and changes in no other way, pair decimals update only from its factory, "
+         "withdraw hook only from the LP token, swap hook only from a pair cw20 naming itself, token offers rejected on execute-swap, router internals only from the router), rejected calls change nothing. "
+         "Correspondence: world families auth/factory/mixed enumerating callers x entry points before and after ownership transfer.",
+         "§6 C14", "Lean 4 proof (decision logic per entry point) + differential correspondence on cw-multi-test"),
+ "C16": ("Lean theorems: the registry key is symmetric and injective on unordered identifier sets (after the repair of D3; the old format's collision is a proved witness), lookup/insert laws, sortedness of the registry. "
+         "Correspondence: pair_key family over colliding identifiers, world family factory comparing factory records with pair self-descriptions in both orders after every step.",
+         "§6 C16, §7 D3", "Lean 4 proof (injectivity, registry laws) + differential correspondence"),
+ "C18": ("Lean theorems: render/parse round trips for Uint256 and Decimal256, canonical form and denotation of rendered text, exact characterisation of accepted strings (parse = denotation, ≤18 fractional digits), JSON round trips, width conversions. "
+         "Correspondence: text family (exhaustive short strings, structured values, long numerals).",
+         "§6 C18", "Lean 4 proof (round-trip laws on numerals) + differential correspondence"),
+ "C19": ("Lean theorems: page bounds (≤30, default 10, ≤ limit), the exclusive bound means strictly-after under NoLowExt, the page walk visits every registered pair exactly once and ends (no fuel bound in the statement), "
+         "NoLowExt for identifiers with bytes ≥ 2, necessity of the hypothesis, sortedness preserved by insertion. Correspondence: read_pairs over real storage, world family factory.",
+         "§6 C19", "Lean 4 proof (list algorithm, termination, completeness) + differential correspondence"),
  "C15": ("Lean theorems: soundness and completeness of assert_slippage_tolerance, >100% always rejected, no abort on positive 128-bit inputs. "
          "Correspondence: slippage family with deposits solved around both ratio limits.", "§6 C15", "Lean 4 proof + differential correspondence"),
 }
@@ -39,16 +59,16 @@ CLAIMS = {
 PENDING = {}
 
 NOT_YET = {
- "C02": "world-level model (N5) and swap settlement theorems not built yet; planned, see DESIGN §6 C02",
+ "C02_": "world-level model (N5) and swap settlement theorems not built yet; planned, see DESIGN §6 C02",
  "C03": "history induction over the world model not built yet; planned, see DESIGN §6 C03",
  "C07": "frame/conservation theorems over the world model not built yet; planned",
- "C11": "router model not built yet; planned",
+ "C11_": "router model not built yet; planned",
  "C13": "router model not built yet; planned",
- "C14": "authorisation theorems over the world/factory model not built yet; planned",
- "C16": "registry model (N4) not built yet; planned",
+ "C14_": "authorisation theorems over the world/factory model not built yet; planned",
+ "C16_": "registry model (N4) not built yet; planned",
  "C17": "factory state machine model not built yet; planned",
- "C18": "text model (N2) not built yet; planned",
- "C19": "pagination model not built yet; planned",
+ "C18_": "text model (N2) not built yet; planned",
+ "C19_": "pagination model not built yet; planned",
  "C20": "liveness from the inductive invariant not built yet; planned",
 }
 
